@@ -28,7 +28,7 @@ impl Universe {
     /// Builds a universe with adversarial key shapes. `style` selects the flavour.
     pub fn generate(rng: &mut Rng, n_g: usize, n_w: usize, n_d: usize) -> Self {
         let mut keys: Vec<(Key, Class)> = vec![];
-        let style = rng.below(4);
+        let style = if n_g >= 400 { 9 } else { rng.below(4) };
 
         let mut push = |k: Key, c: Class, keys: &mut Vec<(Key, Class)>| {
             if !k.is_empty() && !keys.iter().any(|(x, _)| x == &k) {
@@ -44,6 +44,8 @@ impl Universe {
         while keys.iter().filter(|(_, c)| *c == Class::G).count() < n_g {
             i += 1;
             let k: Key = match (style, rng.below(10)) {
+                // dense universes: many tiny keys (hundreds of entries per data block)
+                (9, _) => format!("{:03x}", i).into_bytes(),
                 // 1-byte keys
                 (_, 0) => vec![b'a' + (rng.below(20) as u8)],
                 // keys ending in 0xFF / 0xFF 0xFF (prefix upper bound carry)
